@@ -24,16 +24,35 @@ def run(ck):
     d.mkdir(parents=True, exist_ok=True)
     dist = {"runs": 0, "suboptimal_within_bound": 0, "capacity_bound_specs": 0, "max_ratio": 1.0}
     settings = [(0.01, 0.0), (0.1, 0.0), (0.5, 0.0), (0.1, 0.1), (0.5, 0.5), (0.0, 0.01), (0.0, 0.5), (0.01, 0.1)]
-    for i in range(ck.n(5, 60)):
+    for i in range(ck.n(6, 60)):
         spec, space = R.gen_search_spec(rng, max_space=ck.n(2500, 15000))
         for L in spec["levels"][1:]:
             if L["size"] is None and rng.random() < 0.6:
                 L["size"] = rng.choice([16, 32, 64])
+        forced = []
+        if i % 2 == 1:
+            # tolerance-critical size: the unconstrained energy optimum needs between S and (1 + rt) x S bits of the first buffer
+            rt_c = rng.choice([0.1, 0.5])
+            saved = spec["levels"][1]["size"]
+            spec["levels"][1]["size"] = None
+            unc = R.reference(spec)
+            if unc:
+                m_u = min(unc, key=lambda x: x[1])[0]
+                u = S.usage_code(spec, m_u).get(1, 0)
+                s_c = -(-int(u * 1000) // int((1 + rt_c) * 1000))
+                if u > 0 and s_c < u:
+                    spec["levels"][1]["size"] = s_c
+                    forced = [(0.0, rt_c)]
+                    dist["tolerance_critical_specs"] = dist.get("tolerance_critical_specs", 0) + 1
+                else:
+                    spec["levels"][1]["size"] = saved
+            else:
+                spec["levels"][1]["size"] = saved
         ref = R.reference(spec)
         if not ref:
             continue
         dist["capacity_bound_specs"] += len(ref) < len(S.enumerate_space(spec))
-        for (ot, rt) in (settings if not ck.quick() else rng.sample(settings, 4)):
+        for (ot, rt) in forced + (settings if not ck.quick() else rng.sample(settings, 3 if forced else 4)):
             for metric, col in c01.METRICS[:2]:
                 res = R.run_mapper(af, spec, d, [metric], extra={"objective_tolerance": ot, "resource_usage_tolerance": rt})
                 dist["runs"] += 1
